@@ -71,7 +71,7 @@ theorem gen_rphp_eq_model (pigeons resting holes : Int) :
   · have hrpos : (r : Int) > 0 := by omega
     rw [if_pos hrpos]
     have hlen : Py.len [(r : Int)] ≥ 1 := by simp
-    rw [if_pos hlen, new_block_one_eq _ (m * r + r * n) rfl r (by omega)]
+    rw [if_pos hlen, new_block_one_eq _ (m * r + r * n) rfl r]
     simp only [Py.ok_bind, Py.bound]
     have hnv : ((m * r + r * n + r : Nat) : Int) = (((rphpF m r n).nvars : Nat) : Int) := by
       rw [hN]
